@@ -22,8 +22,12 @@ class C08(Check):
     ASSUMPTIONS = ['outside the breakpoint range only mask, order-independence and finiteness are asserted (the property defines no value there)',
                    'repeated interior knots have multiplicity <= order-1 (spline stays continuous); for order 1 a point on an '
                    'interior knot may take either neighbouring coefficient',
-                   'everyn with nx//everyn < 2 is the open finding everyn_single_breakpoint (see known_findings.json)']
-    REQUIRED_COUNTERS = ('bkspace_divides_the_range_exactly', 'nan_evaluations_with_outside_points_above_only', 'caller_breakpoint_array_reused_afterwards_order1', 'value_with_precomputed_action', 'mask_changed_on_evaluated_object', 'knots_through_iterfit_unsorted_data', 'canary_sequences', 'single_point_evaluations', 'presorted_evaluations', 'opt_bkspace', 'opt_nbkpts', 'opt_everyn', 'opt_placed', 'opt_bkpt', 'not_cover_adjusted',
+                   'everyn with nx//everyn < 2 is the open finding everyn_single_breakpoint (see known_findings.json)',
+                   'everyn and float32 bkpt arrays hold the breakpoints in single precision: abscissae whose span is below the '
+                   'single-precision resolution of their values (Julian dates minutes apart) are used with the other options only',
+                   'a bkspace that divides the data range gives exactly that spacing: asserted for float64 abscissae (for float32 '
+                   'data the quotient is formed in single precision)']
+    REQUIRED_COUNTERS = ('long_everyn_points_times_breakpoints_over_2**31', 'abscissae_with_offset_over_1e6_and_knot_spacing_below_1e-7_of_it', 'bkspace_divides_the_range_exactly', 'nan_evaluations_with_outside_points_above_only', 'caller_breakpoint_array_reused_afterwards_order1', 'value_with_precomputed_action', 'mask_changed_on_evaluated_object', 'knots_through_iterfit_unsorted_data', 'canary_sequences', 'single_point_evaluations', 'presorted_evaluations', 'opt_bkspace', 'opt_nbkpts', 'opt_everyn', 'opt_placed', 'opt_bkpt', 'not_cover_adjusted',
                          'points_compared_inside', 'points_outside_checked', 'unsorted_inputs', 'float32_inputs',
                          'scipy_agreements')
     CASE_CPU_S = 60
@@ -47,14 +51,31 @@ class C08(Check):
 
     def budget(self, tier):
         k = 1 if tier == 'quick' else 80
-        return {'random': 1400 * k, 'explicit_bkpt': 400 * k, 'everyn': 300 * k, 'tiny': 200 * k, 'everyn_degenerate': 40 * k}
+        return {'random': 1400 * k, 'explicit_bkpt': 400 * k, 'everyn': 300 * k, 'tiny': 200 * k, 'everyn_degenerate': 40 * k,
+                'long_everyn': 4 if tier == 'quick' else 40}
 
     # ------------------------------------------------------------------ gen
     def gen(self, cls, rng, i):
         g = np_rng(rng)
+        if cls == 'long_everyn':
+            # long data vectors with a breakpoint every n-th point: the number of points times the number of breakpoints beyond
+            # 2**31 (47000 points with everyn=1, 70000 with 2, 120000 with 5 ...); the data are made from the seed at run time and
+            # only the knot vector is examined (evaluating tens of thousands of intervals is another check's budget)
+            ev = rng.choice([1, 1, 2, 3, 5, 8])
+            nx = int(np.sqrt(2.0 ** 31 * ev)) + rng.choice([1, 7, 100, 1000, 5000, 20000])
+            return {'kind': cls, 'nx': nx, 'everyn': ev, 'nord': rng.randint(1, 6), 'seed': rng.getrandbits(32)}
         nx = rng.randint(5, 400) if cls != 'tiny' else rng.randint(5, 12)
         k = rng.randint(1, 6)
         lo, hi = rng.choice([(-5.0, 20.0), (0.0, 1.0), (3500.0, 9200.0), (-1e-3, 1e-3), (3.55, 3.97)])
+        if cls in ('random', 'explicit_bkpt') and rng.random() < 0.12:
+            # abscissae with a large additive offset and a narrow span (Julian dates minutes apart, Unix seconds, a pixel window of
+            # a mosaic): the breakpoint spacing is far below single-precision resolution of the values themselves
+            off = rng.choice([2451545.0, 2458849.5, 1.7e9, 2.0 ** 20, -3.0e6])
+            span = rng.choice([0.4, 0.05, 3.0, 100.0]) * (1e3 if abs(off) > 1e8 else 1.0)
+            lo, hi = off, off + span
+            self._offset_case = True
+        else:
+            self._offset_case = False
         m = rng.randint(0, 3)
         if m == 0:
             x = g.uniform(lo, hi, nx)
@@ -66,7 +87,7 @@ class C08(Check):
             x = g.uniform(lo, hi, nx)
             idx = g.integers(0, nx, nx // 3)
             x[idx] = x[g.integers(0, nx, nx // 3)]          # duplicated values
-        dt = 'f4' if rng.random() < 0.2 else 'f8'
+        dt = 'f4' if rng.random() < 0.2 and abs(lo) < 1e5 else 'f8'
         x = x.astype(dt)
         if float(x.max()) <= float(x.min()):
             x[0] = lo
@@ -77,6 +98,10 @@ class C08(Check):
         rngx = float(x.max()) - float(x.min())
         opt = {'explicit_bkpt': 'bkpt', 'everyn': 'everyn', 'everyn_degenerate': 'everyn'}.get(cls) or \
             rng.choice(['bkspace', 'nbkpts', 'everyn', 'placed', 'bkpt'])
+        if self._offset_case and opt == 'everyn':
+            # everyn stores its breakpoints in single precision (the property: "to single-precision rounding"): a span below the
+            # single-precision resolution of the abscissae collapses them to one value - outside the domain
+            opt = rng.choice(['bkspace', 'nbkpts', 'placed', 'bkpt'])
         val = None
         if opt == 'bkspace':
             val = rngx / rng.uniform(1.0, nx / 2 + 1)
@@ -129,7 +154,7 @@ class C08(Check):
             val = [a] + inner.tolist() + [b]
         return {'kind': cls, 'x': x.astype('f8').tolist(), 'xdtype': dt, 'sorted': srt, 'nord': k, 'opt': opt, 'optval': val,
                 'coeff_mode': rng.choice(['random', 'random', 'unit', 'poly']), 'seed': rng.getrandbits(32),
-                'bkpt_dtype': rng.choice(['f8', 'f8', 'f4'])}
+                'bkpt_dtype': 'f8' if self._offset_case else rng.choice(['f8', 'f8', 'f4'])}
 
     # ------------------------------------------------------------------ run
     def canary(self):
@@ -153,7 +178,42 @@ class C08(Check):
                 res.append(('raised', type(e).__name__, str(e)[:80]))
         return res
 
+    def run_long_everyn(self, case, out):
+        B = self.B
+        k, nx, ev = case['nord'], case['nx'], case['everyn']
+        g = np.random.default_rng(case['seed'])
+        x = np.sort(g.uniform(0.0, 1000.0, nx))
+        with warnings.catch_warnings():
+            warnings.simplefilter('ignore')
+            s = B.bspline(x, nord=k, everyn=ev)
+        t = np.asarray(s.breakpoints, dtype='f8')
+        nt = len(t)
+        out.count('long_everyn_cases')
+        out.count('long_everyn_points_times_breakpoints_over_2**31', nx * (nx // ev - 1) >= 2 ** 31)
+        out.expect(bool(np.all(np.isfinite(t))), 'knots', 'non-finite knot')
+        out.expect(bool(np.all(np.diff(t) >= 0)), 'knots', 'knot vector of %d points, everyn=%d decreases at %d places'
+                   % (nx, ev, int((np.diff(t) < 0).sum())), knots=t[:6])
+        if not out.expect(nt >= 2 * k, 'knots', 'fewer than two breakpoints'):
+            return
+        n = nt - k
+        tol = 4 * EPS32 * 1000.0
+        out.expect(t[k - 1] <= x[0] + tol and t[n] >= x[-1] - tol, 'covers', 'breakpoint range [%r, %r] does not cover the data range [%r, %r]'
+                   % (t[k - 1], t[n], x[0], x[-1]))
+        # a breakpoint every `everyn` points: the number of breakpoints is about nx / everyn, and between two successive interior
+        # breakpoints lie about `everyn` points
+        nb = nt - 2 * (k - 1)
+        out.expect(abs(nb - nx // ev) <= 2, 'padding', '%d breakpoints for %d points with everyn=%d' % (nb, nx, ev))
+        if nb > 4:
+            cnt = np.diff(np.searchsorted(x, t[k - 1:n + 1]))
+            # (the breakpoints are stored in single precision: one may move across a few neighbouring abscissae)
+            out.expect(int(cnt[1:-1].max()) <= 2 * ev + 4, 'knots',
+                       'between successive breakpoints lie %d .. %d points, everyn=%d' % (int(cnt[1:-1].min()), int(cnt[1:-1].max()), ev))
+        out.nontrivial = True
+        out.info.update(order=k, npts=nx, everyn=ev)
+
     def run(self, case, out):
+        if case['kind'] == 'long_everyn':
+            return self.run_long_everyn(case, out)
         B = self.B
         x = np.array(case['x'], dtype=case['xdtype'])
         k = case['nord']
@@ -171,6 +231,7 @@ class C08(Check):
         out.count('not_cover_adjusted', adjusted)
         out.count('unsorted_inputs', not case['sorted'])
         out.count('float32_inputs', case['xdtype'] == 'f4')
+        out.count('abscissae_with_offset_over_1e6_and_knot_spacing_below_1e-7_of_it', abs(float(x.min())) > 1e6)
         t = np.asarray(s.breakpoints, dtype='f8')
         xmin, xmax = float(x.min()), float(x.max())
         tol = 4 * EPS32 * max(abs(xmin), abs(xmax), 1e-300)
@@ -422,14 +483,15 @@ class C08(Check):
         out.info.update(order=k, opt=opt, nknots=nt, intervals=nint)
 
     def classify(self, case, out):
-        if case['opt'] == 'everyn' and len(case['x']) // int(case['optval']) < 2 \
+        if case.get('opt') == 'everyn' and len(case['x']) // int(case['optval']) < 2 \
                 and all(f['clause'] in ('covers', 'padding', 'knots') for f in out.fails):
             return 'everyn_single_breakpoint'
         return None
 
     def summarise(self, case):
         c = dict(case)
-        c['x'] = case['x'][:8] + ['... %d values' % len(case['x'])]
+        if 'x' in c:
+            c['x'] = case['x'][:8] + ['... %d values' % len(case['x'])]
         return c
 
 
